@@ -15,7 +15,28 @@ PREFIX = "decoy_"
 def setup():
     from symx import world
     world.import_mokapot_patched()
-    return world.mod("mokapot.parsers.fasta")
+    F = world.mod("mokapot.parsers.fasta")
+    world.route_set_displays(F)  # `{...}` built by syntax obeys the `set` shim as well
+    for k in ("_parse_fasta_files", "_parse_protein"):
+        REALS.setdefault(k, F.__dict__[k])
+    return F
+
+
+REALS = {}
+
+
+class _Text:
+    def __init__(self, t):
+        self.t = t
+
+    def read(self):
+        return self.t
+
+    def __enter__(self):
+        return self
+
+    def __exit__(self, *a):
+        return False
 
 
 def _oset_class(mode):
@@ -113,6 +134,7 @@ def sym(ctx, cfg):
     inputs = dict(incidence=[[b for b in row] for row in bits], orders=cfg["orders"])
     props = []
     first = None
+    exact_by_order = {}
     has_decoys = any((PREFIX + n) in pepsets and pepsets[PREFIX + n] for n in names if not n.startswith(PREFIX) and pepsets[n])
     only = all(n.startswith(PREFIX) or not pepsets[n] for n in names)
     for order in cfg["orders"]:
@@ -120,12 +142,25 @@ def sym(ctx, cfg):
             OSet = _oset_class(mode)
             entries = [names[i] for i in order]
             F.set = OSet
-            F._parse_fasta_files = lambda files: list(entries)
-            F._parse_protein = lambda e: (e, e)
+            nfiles = cfg.get("files", 0)
+            if nfiles:
+                # the REAL _parse_fasta_files / _parse_protein on several in-memory files (sequence = protein name)
+                texts = {}
+                for fi in range(nfiles):
+                    part = entries[fi::nfiles]
+                    texts["/vfs/db%d.fasta" % fi] = "\n".join(">%s some description\n%s" % (e, e) for e in part) + "\n"
+                F._parse_fasta_files = REALS["_parse_fasta_files"]
+                F._parse_protein = REALS["_parse_protein"]
+                F.open = lambda path, *a, **k: _Text(texts[str(path)])
+                fasta_arg = list(texts)
+            else:
+                F._parse_fasta_files = lambda files: list(entries)
+                F._parse_protein = lambda e: (e, e)
+                fasta_arg = "ignored.fasta"
             F.digest = lambda seq, *a, **kw: OSet(pepsets[seq])
             tag = "[order=%s,sets=%s]" % ("".join(map(str, order)), mode)
             try:
-                prot = F.read_fasta("ignored.fasta", decoy_prefix=PREFIX)
+                prot = F.read_fasta(fasta_arg, decoy_prefix=PREFIX)
             except Unsupported:
                 raise
             except ValueError as ex:
@@ -142,6 +177,14 @@ def sym(ctx, cfg):
                 first = grouping
             else:
                 props.append(("grouping_independent_of_entry_and_hash_order" + tag, z3.BoolVal(grouping == first)))
+            # C08: for ONE entry order the maps are identical - group NAMES included - whatever the set-iteration
+            # order (what a fresh interpreter with another PYTHONHASHSEED changes)
+            exact = (dict(prot.peptide_map), dict(prot.protein_map))
+            key_ = tuple(order)
+            if key_ not in exact_by_order:
+                exact_by_order[key_] = exact
+            else:
+                props.append(("group_names_independent_of_hash_order" + tag, z3.BoolVal(exact == exact_by_order[key_])))
     return PathOutcome(props, inputs, None)
 
 
@@ -150,10 +193,10 @@ def harnesses(tier):
     F = setup()
     hs = []
 
-    def add(P, Q, orders, modes, decoy=False, nested=False):
+    def add(P, Q, orders, modes, decoy=False, nested=False, files=0):
         orders = [list(o) for o in orders]
-        hs.append(Harness("group[%dx%d%s%s,%d entry orders x %d set orders]" % (P, Q, ",decoy" if decoy else "", ",names nested in one another" if nested else "", len(orders), len(modes)),
-                          dict(P=P, Q=Q, orders=orders, set_orders=list(modes), decoy=decoy, nested=nested), sym, real="fasta",
+        hs.append(Harness("group[%dx%d%s%s%s,%d entry orders x %d set orders]" % (P, Q, ",decoy" if decoy else "", ",names nested in one another" if nested else "", ",%d files" % files if files else "", len(orders), len(modes)),
+                          dict(P=P, Q=Q, orders=orders, set_orders=list(modes), decoy=decoy, nested=nested, files=files), sym, real="fasta",
                           functions=[F.read_fasta, F._group_proteins], bounds=dict(proteins=P, peptides=Q, entry_orders=len(orders), set_orders=list(modes)),
                           stubs=["_parse_fasta_files/_parse_protein/digest -> protein i yields the peptide set given by incidence bits",
                                  "set -> ordered set with a fixed global iteration order (asc/desc/rotated): model of PYTHONHASHSEED"],
@@ -165,6 +208,7 @@ def harnesses(tier):
         add(3, 2, allp(3), ["asc", "desc"], decoy=True)
         add(4, 3, [(0, 1, 2, 3), (3, 2, 1, 0), (1, 3, 0, 2), (2, 0, 3, 1)], ["asc", "desc"])
         add(3, 3, allp(3), ["asc", "desc"], nested=True)
+        add(3, 2, [(0, 1, 2), (2, 0, 1)], ["asc", "desc", "rot"], files=2)
         add(4, 3, [(0, 1, 2, 3), (3, 2, 1, 0), (1, 3, 0, 2), (2, 0, 3, 1)], ["asc"], nested=True)
     else:
         add(4, 3, allp(4), ["asc", "desc"], nested=True)
@@ -219,21 +263,30 @@ def real_fasta(cfg, inp):
         # counterexample that needs a different set-iteration order: real interpreter sessions
         # with different PYTHONHASHSEED values
         import subprocess, sys, json
-        seen = {}
-        with tempfile.TemporaryDirectory(prefix="verif_c16_") as d:
-            p = os.path.join(d, "db.fasta")
-            with open(p, "w") as f:
-                for i in inp["orders"][0]:
-                    f.write(">%s\n%s\n" % (names[i], "".join(PEPSEQ[k] for k in range(Q) if inc[i][k])))
-            code = ("import sys; sys.path.insert(0, %r); import mokapot, json; pr = mokapot.read_fasta(%r, missed_cleavages=0, min_length=6);"
-                    "print(json.dumps(sorted([sorted(g.split(', ')), p] for p, g in pr.peptide_map.items())))" % (os.environ.get("VERIF_REPO", "/repo"), p))
-            for seed in range(1, 9):
-                env = dict(os.environ, PYTHONHASHSEED=str(seed))
-                r = subprocess.run([sys.executable, "-W", "ignore", "-c", code], capture_output=True, text=True, env=env)
-                if r.returncode == 0:
-                    seen.setdefault(r.stdout.strip().splitlines()[-1], seed)
-        if len(seen) > 1:
-            return dict(violation="grouping depends on PYTHONHASHSEED: seeds %s give different peptide maps" % sorted(seen.values()))
+        exact = any("group_names" in x for x in cfg.get("_failed", []))
+        nfiles = cfg.get("files", 0) or 1
+        for order in inp["orders"]:
+            seen = {}
+            with tempfile.TemporaryDirectory(prefix="verif_c16_") as d:
+                entries = [names[i] for i in order]
+                paths = []
+                for fi in range(nfiles):
+                    p = os.path.join(d, "db%d.fasta" % fi)
+                    with open(p, "w") as f:
+                        for n in entries[fi::nfiles]:
+                            f.write(">%s some description\n%s\n" % (n, "".join(PEPSEQ[k] for k in range(Q) if inc[names.index(n)][k])))
+                    paths.append(p)
+                show = ("sorted(pr.peptide_map.items()) + sorted(pr.protein_map.items())" if exact else "sorted([sorted(g.split(', ')), p] for p, g in pr.peptide_map.items())")
+                code = ("import sys; sys.path.insert(0, %r); import mokapot, json; pr = mokapot.read_fasta(%r, missed_cleavages=0, min_length=6, decoy_prefix=%r);"
+                        "print(json.dumps(%s))" % (os.environ.get("VERIF_REPO", "/repo"), paths if nfiles > 1 else paths[0], PREFIX, show))
+                for seed in range(1, 9):
+                    env = dict(os.environ, PYTHONHASHSEED=str(seed))
+                    r = subprocess.run([sys.executable, "-W", "ignore", "-c", code], capture_output=True, text=True, env=env)
+                    if r.returncode == 0 and r.stdout.strip():
+                        seen.setdefault(r.stdout.strip().splitlines()[-1], seed)
+            if len(seen) > 1:
+                return dict(violation="read_fasta on %d file(s), entry order %s: the %s depend on PYTHONHASHSEED - seeds %s give %s" % (
+                    nfiles, order, "peptide and protein maps (group names)" if exact else "groups", sorted(seen.values()), list(seen)[:2]))
     return dict(outputs=None, violation=None)
 
 
